@@ -132,6 +132,8 @@ func (j *Journal) nextBatch() int {
 
 // Store is a journaling ds.Batching over a map.
 type Store struct {
+	// LiveQuery: Query results are iterated live (see Query). Set before use.
+	LiveQuery bool
 	J      *Journal
 	Name   string
 	mu     sync.RWMutex
@@ -259,6 +261,27 @@ func (s *Store) Query(ctx context.Context, q query.Query) (query.Results, error)
 		if all[i].Value != nil {
 			all[i].Value = append([]byte(nil), all[i].Value...)
 		}
+	}
+	if s.LiveQuery && !q.KeysOnly {
+		// live iteration (a store that walks its files): the keys are those present when Query was called, each value
+		// is read when the iterator reaches it; an entry deleted meanwhile is skipped
+		idx := 0
+		return query.ResultsFromIterator(q, query.Iterator{Next: func() (query.Result, bool) {
+			for idx < len(all) {
+				en := all[idx]
+				idx++
+				s.mu.RLock()
+				cur, gerr := s.inner.Get(ctx, ds.NewKey(en.Key))
+				s.mu.RUnlock()
+				if gerr != nil {
+					continue
+				}
+				en.Value = append([]byte(nil), cur...)
+				en.Size = len(cur)
+				return query.Result{Entry: en}, true
+			}
+			return query.Result{}, false
+		}}), nil
 	}
 	return query.ResultsWithEntries(q, all), nil
 }
